@@ -9,18 +9,24 @@ namespace KrroodVerif.Drive.SG
 open KrroodVerif KrroodVerif.SG
 
 /-- classes: 0 Thing, 1 Org(Thing), 2 Emp(Thing), 3 Mgr(Emp), 4 A(Thing), 5 B(A), 6 C(A), 7 D(B, C),
-8 Chair(Role[Emp], Thing) (a role whose role taker is an Emp; its instances are plain instances for the model),
-9 Bag(Thing) (defines `__len__`: an instance may be falsy — liveness is about references, not truthiness);
+8 Chair(Role[Emp], Thing) (a role; its role taker is an Emp), 9 Bag(Thing) (defines `__len__`: an instance may be
+falsy — liveness is about references, not truthiness), 10 Rec(Symbol), 11 RecSub(Rec), 12 Holder(Symbol) (holds a
+Rec; these three live in a module of their own with a generated ORM interface);
 fields: 0 Emp.works_for (WorksFor ⊂ MemberOf), 1 Emp.member_of (MemberOf, inverse Member), 2 Org.members (Member,
-inverse MemberOf), 3 Org.sub_of (SubOf, transitive), 4 Thing.knows, 5 Thing.likes (plain dataclass fields) -/
+inverse MemberOf), 3 Org.sub_of (SubOf, transitive), 4 Thing.knows, 5 Thing.likes (plain dataclass fields),
+6 Chair.head_of (HeadOf ⊂ WorksFor: inverse Member on the Org; its super-properties live on the role taker),
+7 Chair.manages (Manages ⊂ Employer, no inverse), 8 Emp.employer (Employer), 9 a strong reference that is no relation
+(Chair.emp, Holder.item, the harness's `attach`). `Member`'s inverse `MemberOf` has no field on a Chair (class 8): there
+krrood goes to the role taker — that step and the role-taker super-properties are driver level (`XOp.roleset`). -/
 def schema : Schema where
   subs := fun c => match c with
-    | 0 => [1, 2, 4, 8, 9] | 2 => [3] | 4 => [5, 6] | 5 => [7] | 6 => [7] | _ => []
+    | 0 => [1, 2, 4, 8, 9] | 2 => [3] | 4 => [5, 6] | 5 => [7] | 6 => [7] | 10 => [11] | _ => []
   depth := 4
   kind := fun f => match f with
-    | 0 => .scalar | 1 => .list | 2 => .set | 3 => .list | _ => .plain
+    | 0 => .scalar | 1 => .list | 2 => .set | 3 => .list | 6 => .scalar | 7 => .scalar | 8 => .scalar | _ => .plain
   supers := fun f _ => match f with | 0 => [1] | _ => []
-  inverse := fun f _ => match f with | 0 => some 2 | 1 => some 2 | 2 => some 1 | _ => none
+  inverse := fun f c => match f with
+    | 0 => some 2 | 1 => some 2 | 2 => if c == 8 then none else some 1 | 6 => some 2 | _ => none
   transitive := fun f => f == 3
   desc := fun f => f
   fuel := 64
@@ -64,10 +70,6 @@ def parseOp (pos : Nat) : Sexp → Option (List Op)
   -- the content of a Bag (its truthiness) means nothing to the registry
   | .list [.atom "fill", _] => some []
   | .list [.atom "empty", _] => some []
-  -- a role instance (class 8) is a plain instance for the model; the role-taker inference of `head_of` is not
-  -- modelled: these operations only occur in query-free C20 loops, where what they record cannot be observed
-  | .list [.atom "newrole", o, _] => do pure [.new (← o.asNat?) 8 0]
-  | .list [.atom "head", _, _] => some []
   | .list [.atom "clear"] => some [.clear]
   | .list [.atom "rel", f, s, t] => do pure [.rel (← f.asNat?) (← s.asNat?) (← t.asNat?)]
   | .list [.atom "set", f, s, t] => do pure [.set (← f.asNat?) (← s.asNat?) (← t.asNat?)]
@@ -119,6 +121,170 @@ def runD (q : Quirks) (ops : List Op) : DSt := runS schema q ops
 def specStepD (q : Quirks) (s : Spec) (op : Op) : Spec := specStepS schema q s op
 def specFrom (q : Quirks) (s : Spec) (ops : List Op) : Spec := ops.foldl (specStepD q) s
 def specRunD (q : Quirks) (ops : List Op) : Spec := specRunS schema q ops
+
+/-! ### operations that are not operations of the proven model (driver level)
+
+They are interpreted on top of `SG.step` / `specStep`: each is a short program of model operations plus, where a strong
+reference is involved that is no relation (field 9), an edit of the heap's field entries.
+* `attach r o` / `detach r`: `root.knows.append(o)` / `root.knows.clear()`.
+* `newrole o e`: `Chair(o, emp=e)` — a new instance of class 8 holding its role taker.
+* `roleset f o g`: `chair.head_of = g` (f = 6) / `chair.manages = g` (f = 7): the assertion on the role itself
+  (`set f o g`; for `head_of` the inverse `members(g → chair)` comes with it) and what krrood infers THROUGH THE ROLE
+  TAKER `e`, as INFERRED relations (`assertInf` = the model's `ensure2` + `addFact … inferred`): for `head_of` the
+  super-properties `works_for`, `member_of` of `e` (with their own inferences, e.g. `members(g → e)`; the inverse of
+  `members(g → chair)` on the role taker is `member_of(e → g)`, the same relation); for `manages` the super-property
+  `employer` of `e`. An inferred relation that is already known changes nothing (in particular not the scalar field).
+* `newholder o r`: `Holder(o, item=r)`.  `clone o s deep`: a new instance made from the live instance `s` by one of
+  the library's / Python's creation paths (copy, deepcopy, pickle, `to_dao(..).from_dao()`): for the registry just a new
+  instance of the class of `s`; a Holder's item is shared (shallow) or re-created with label `o + 1` (deep). -/
+inductive XOp where
+  | m (op : Op)
+  | attach (r o : Nat)
+  | detach (r : Nat)
+  | newrole (o e : Nat)
+  | roleset (f : Fld) (o g : Nat)
+  | newholder (o r : Nat)
+  | clone (o s : Nat) (deep : Bool)
+
+def addRef (h : Heap) (a b : Obj) : Heap := { h with fields := h.fields ++ [⟨a, 9, b⟩] }
+def refOf (h : Heap) (a : Obj) : Option Obj := (h.fields.find? (fun e => e.owner == a && e.fld == 9)).map (·.val)
+
+/-- the relation krrood infers on the role taker: `PropertyDescriptorRelation(taker, g, field, inferred=True).add_to_graph()` -/
+def assertInf (S : Schema) (q : Quirks) (st : DSt) (f : Fld) (e g : Obj) : DSt :=
+  if st.err then st else
+  match st.h.find e, st.h.find g with
+  | some xe, some xg =>
+    let r := ensure2 lifo st xe xg
+    addFact q S S.fuel r.1 f r.2.1 r.2.2 true
+  | _, _ => st
+
+def specAssertInf (S : Schema) (s : Spec) (f : Fld) (e g : Obj) : Spec :=
+  match s.h.find e, s.h.find g with
+  | some xe, some xg =>
+    let s := (s.ensure xe).ensure xg
+    let r := specAddFact S S.fuel ⟨s.h.fields, s.edges⟩ f ⟨xe.obj, xe.cls⟩ ⟨xg.obj, xg.cls⟩ true
+    { s with h := { s.h with fields := r.fields }, edges := r.edges }
+  | _, _ => s
+
+/-- the fields of the role taker that are super-properties of the role's field (in the order krrood visits them) -/
+def takerFields (f : Fld) : List Fld := if f == 6 then [0, 1] else [8]
+
+def stepXS' (S : Schema) (q : Quirks) (st : DSt) : XOp → DSt
+  | .m op => stepS S q st op
+  | .attach r o =>
+    if st.err || !(st.h.isLive r && st.h.isLive o) then st
+    else { st with h := { st.h with fields := st.h.fields ++ [⟨r, 4, o⟩] } }
+  | .detach r =>
+    if st.err then st
+    else { st with h := { st.h with fields := st.h.fields.filter (fun e => !(e.owner == r && e.fld == 4)) } }
+  | .newrole o e =>
+    if st.err || !st.h.isLive e || st.h.used.contains o then st
+    else let st := stepS S q st (.new o 8 0); { st with h := addRef st.h o e }
+  | .roleset f o g =>
+    if st.err || !(st.h.isLive o && st.h.isLive g) then st
+    else
+      let st := stepS S q st (.set f o g)
+      match refOf st.h o with
+      | some e =>
+        let st := (takerFields f).foldl (fun st f' => assertInf S q st f' e g) st
+        if st.err then st else { st with h := st.h.collect q }
+      | none => st
+  | .newholder o r =>
+    if st.err || !st.h.isLive r || st.h.used.contains o then st
+    else let st := stepS S q st (.new o 12 0); { st with h := addRef st.h o r }
+  | .clone o s deep =>
+    if st.err || st.h.used.contains o then st else
+    match st.h.find s with
+    | none => st
+    | some x =>
+      let st := stepS S q st (.new o x.cls 0)
+      if x.cls == 12 then
+        match refOf st.h s with
+        | some r =>
+          if deep then
+            match st.h.find r with
+            | some y => let st := stepS S q st (.new (o + 1) y.cls 0)
+                        -- the user holds the holder only
+                        let st := { st with h := { st.h with held := st.h.held.filter (· != o + 1) } }
+                        { st with h := addRef st.h o (o + 1) }
+            | none => st
+          else { st with h := addRef st.h o r }
+        | none => st
+      else st
+
+def runXS (S : Schema) (q : Quirks) (st : DSt) (ops : List XOp) : DSt := ops.foldl (stepXS' S q) st
+
+def specStepX (S : Schema) (q : Quirks) (s : Spec) : XOp → Spec
+  | .m op => specStepS S q s op
+  | .attach r o =>
+    if !(s.h.isLive r && s.h.isLive o) then s
+    else { s with h := { s.h with fields := s.h.fields ++ [⟨r, 4, o⟩] } }
+  | .detach r => { s with h := { s.h with fields := s.h.fields.filter (fun e => !(e.owner == r && e.fld == 4)) } }
+  | .newrole o e =>
+    if !s.h.isLive e || s.h.used.contains o then s
+    else let s := specStepS S q s (.new o 8 0); { s with h := addRef s.h o e }
+  | .roleset f o g =>
+    if !(s.h.isLive o && s.h.isLive g) then s
+    else
+      let s := specStepS S q s (.set f o g)
+      match refOf s.h o with
+      | some e =>
+        let s := (takerFields f).foldl (fun s f' => specAssertInf S s f' e g) s
+        ({ s with h := s.h.collect q } : Spec).prune
+      | none => s
+  | .newholder o r =>
+    if !s.h.isLive r || s.h.used.contains o then s
+    else let s := specStepS S q s (.new o 12 0); { s with h := addRef s.h o r }
+  | .clone o t deep =>
+    if s.h.used.contains o then s else
+    match s.h.find t with
+    | none => s
+    | some x =>
+      let s := specStepS S q s (.new o x.cls 0)
+      if x.cls == 12 then
+        match refOf s.h t with
+        | some r =>
+          if deep then
+            match s.h.find r with
+            | some y => let s := specStepS S q s (.new (o + 1) y.cls 0)
+                        let s := { s with h := { s.h with held := s.h.held.filter (· != o + 1) } }
+                        { s with h := addRef s.h o (o + 1) }
+            | none => s
+          else { s with h := addRef s.h o r }
+        | none => s
+      else s
+
+def specRunX (S : Schema) (q : Quirks) (ops : List XOp) : Spec := ops.foldl (specStepX S q) Spec.init
+
+def parseXOne (pos : Nat) (x : Sexp) : Option (List XOp) :=
+  match x with
+  | .list [.atom "attach", r, o] => do pure [XOp.attach (← r.asNat?) (← o.asNat?)]
+  | .list [.atom "detach", r] => do pure [XOp.detach (← r.asNat?)]
+  | .list [.atom "newrole", o, e] => do pure [XOp.newrole (← o.asNat?) (← e.asNat?)]
+  | .list [.atom "head", o, g] => do pure [XOp.roleset 6 (← o.asNat?) (← g.asNat?)]
+  | .list [.atom "manage", o, g] => do pure [XOp.roleset 7 (← o.asNat?) (← g.asNat?)]
+  | .list [.atom "newholder", o, r] => do pure [XOp.newholder (← o.asNat?) (← r.asNat?)]
+  | .list [.atom "clone", o, s, .atom how] => do
+      pure [XOp.clone (← o.asNat?) (← s.asNat?) (how != "copy")]
+  -- a query over the long-lived type that reaches the transient instances through `flatten(root.knows)`:
+  -- only the variable over the roots has a domain (and a cached domain)
+  | .list [.atom "queryf", c] => do
+      let c ← c.asNat?
+      pure ([Op.mkq (100000 + pos) c none, .evalq (100000 + pos), .dropq (100000 + pos)].map XOp.m)
+  | .list (.atom "queryfd" :: c :: dom) => do
+      let c ← c.asNat?
+      pure ([Op.mkq (100000 + pos) c (some (← dom.mapM Sexp.asNat?)), .evalq (100000 + pos),
+        .dropq (100000 + pos)].map XOp.m)
+  | _ => do pure ((← parseOp pos x).map XOp.m)
+
+def parseX (xs : List Sexp) : Option (List XOp) :=
+  let rec go (pos : Nat) : List Sexp → Option (List XOp)
+    | [] => some []
+    | x :: r => do
+      let a ← parseXOne pos x
+      let b ← go (pos + 1) r
+      pure (a ++ b)
+  go 0 xs
 
 /-! canonical printing -/
 
